@@ -774,6 +774,7 @@ class UnitBuilder:
         self.sources: Dict[str, Source] = {}
         self.labels: Dict[str, dict] = {}      # label -> {fn, kind}
         self.fn_ranges: List[dict] = []
+        self.emitted_consts: set = set()
 
     def source(self, rel: str) -> Source:
         if rel not in self.sources:
@@ -820,9 +821,27 @@ class UnitBuilder:
                 f"    open spec fn from_spec(e: {ty}) -> Self {{ {cons} }}\n}}\n", kind="gen")
             self.rep.rule("G1 From impl generated for thiserror #[from]")
 
+    def auto_consts(self, s: "Source", toks: List[Tok]):
+        """G4: a constant of the same source file that an extracted body mentions is pulled in automatically (transitively);
+        edits that introduce a named constant must not make the unit undecided"""
+        names = {it.name for it in s.items if it.kind == "const"}
+        declared = {p[1].split()[0] for k, p in self.spec.order if k == "const"}
+        todo = [t.text for t in toks if t.kind == "ident" and t.text in names]
+        for n in todo:
+            if n in self.emitted_consts or n in declared:
+                continue
+            it = s.find_const(n)
+            if any(t.kind == "ident" and t.text in ("f32", "f64", "str") for t in it.toks):
+                continue       # float / string constants stay out (the unit declares those it can use)
+            self.emitted_consts.add(n)
+            self.auto_consts(s, it.toks[1:])
+            self.emit_const(s.rel, n)
+            self.rep.rule(f"G4 constant {n} pulled in because an extracted body mentions it")
+
     def emit_const(self, rel: str, spec: str):
         parts = spec.split()
         name = parts[0]
+        self.emitted_consts.add(name)
         s = self.source(rel)
         it = s.find_const(name)
         self.cut(s, it, f"const {name}")
@@ -854,6 +873,8 @@ class UnitBuilder:
                 raise Undecided(f"unsupported attribute #[{nm}] on {fnq}")
             self.rep.drop(f"#[{nm}]")
         toks = strip_vis(it.toks)
+        if self.spec.mode == "verus" and fs.kind == "fn" and imp is None:
+            self.auto_consts(s, toks)
         bo = next(i for i, t in enumerate(toks) if is_p(t, "{") and i >= (it.body_open - (len(it.toks) - len(toks))))
         sig, body = toks[:bo], toks[bo:]
         if any(t.kind == "ident" and t.text == "where" for t in sig):
